@@ -249,7 +249,7 @@ def site_signature(g, site):
         return site
 
 
-def classify(unit_runs, prop, baseline, known):
+def classify(unit_runs, prop, baseline, known, all_known=None):
     """-> dict(obligations, discharged, violations[], known[], undecided[], failed_known_ids)"""
     out = {'obligations': [], 'discharged': [], 'violations': [], 'known': [], 'undecided': [], 'unbaselined': []}
     for u in unit_runs:
@@ -264,9 +264,16 @@ def classify(unit_runs, prop, baseline, known):
         for bid, bprops in baseline.get(u.unit, {}).items() if isinstance(baseline.get(u.unit), dict) else []:
             if prop in bprops and bid not in ids and not any(k['obligation'] == bid for k in known):
                 out['undecided'].append(f'{u.unit}: baseline obligation {bid} was not generated (lost anchor / contract edited)')
+        # functions with a failure that is NOT a listed open known finding (of any property): their other clauses are not counted.
+        # A function whose only failing clauses are listed known findings keeps its other clauses (Verus reports each failing
+        # clause separately under --multiple-errors and checks the remaining ones).
         failed_fns = set()
-        for oid in u.failed:
-            failed_fns.add(oid.split('::')[1] if False else oid.rsplit('::', 1)[0])
+        open_known = [k for k in (all_known if all_known is not None else known) if k.get('status', 'open') == 'open']
+        for oid, diags in u.failed.items():
+            ks = [k for k in open_known if k['obligation'] == oid]
+            if ks and all(any((not k.get('sites')) or site_signature(u.g, d.get('site')) in k['sites'] for k in ks) for d in diags):
+                continue
+            failed_fns.add(oid.rsplit('::', 1)[0])
         for o in obs:
             out['obligations'].append(o)
             fkey = o.id.rsplit('::', 1)[0]
